@@ -153,6 +153,29 @@ fn child_main(args: &BTreeMap<String, String>) -> ! {
         if matches!(op, Op::Merge { .. } | Op::Gc) {
             continue;
         }
+        if is_commit && rr.bool() {
+            // ... but a failed commit does not have to kill the writer: a user may keep it and
+            // reclaim space or merge before retrying. Whatever runs now must leave the last
+            // successful commit readable.
+            let _ = guarded(|| ex.step(&Op::Gc));
+            if rr.bool() {
+                let _ = guarded(|| ex.step(&Op::Merge { pick: rr.next_u64(), n: 3, wait: true }));
+            }
+            match observe_snapshot(&mon) {
+                Err(e) => viol.push((
+                    "after-failed-commit+gc:last-commit-unreadable".into(),
+                    json!({"err": e, "op": op.kind()}),
+                )),
+                Ok(ids) => {
+                    if !same(&ids, &ex.model.committed) {
+                        viol.push((
+                            "after-failed-commit+gc:state-differs-from-last-commit".into(),
+                            json!({"n_ids": ids.len(), "expected": ex.model.committed.len()}),
+                        ));
+                    }
+                }
+            }
+        }
         let recover = if rr.bool() { Op::Rollback } else { Op::Reopen { wait_merges: false } };
         let r = guarded(|| ex.step(&recover));
         match r {
